@@ -14,6 +14,8 @@ import re
 
 LEVEL = "model_checking"
 
+OVERLAY = {"nodeconf/zz_verif_nodeconf_race_test.go": "harness/inpkg/nodeconf/zz_verif_nodeconf_race_test.go"}
+
 
 def broken(msg):
     from vf import CheckBroken
@@ -51,9 +53,11 @@ def replay_for_line(lines, n):
         return {"trace_tail": lines[max(0, n - 5):n]}
 
     def conf(cid):
-        return {"id": cid, "nodes": [{"id": k, "types": ["coordinator" if t == "coord" else t for t in v["t"]], "addrs": v["a"]}
-                                     for k, v in sorted(net["confs"][cid].items())]}
+        return {"id": cid, "nodes": [{"id": k, "types": ["coordinator" if t == "coord" else t for t in ent], "addrs": v["a"]}
+                                     for k, v in sorted(net["confs"][cid].items()) for ent in v["t"]]}
     cids = sorted(net["confs"])
+    if net.get("kind") == "race":
+        return {"race": True}
     if net.get("kind") == "dynamic":
         return {"dynamic": True, "c1": conf(net["c1"]), "c2": conf(net["c2"])}
     main = x["cid"] if x["cid"] in net["confs"] else cids[0]
@@ -115,7 +119,7 @@ def self_test(ctx, trace):
         o = json.loads(line)
         if o["ev"] == "Net":
             seen = set()
-            pool = sorted(set(k for c in o["confs"].values() for k, v in c.items() if "tree" in v["t"]))
+            pool = sorted(set(k for c in o["confs"].values() for k, v in c.items() if any("tree" in ent for ent in v["t"])))
         if o["ev"] == "Query":
             key = (o["cid"], o["space"][-1])
             cand = [p for p in pool if p not in o["members"]]
@@ -146,16 +150,25 @@ def self_test(ctx, trace):
 
 def run(ctx):
     thorough = ctx.tier == "thorough"
+    verif = os.path.dirname(os.path.dirname(os.path.abspath(__file__)))
+    overlay = {k: os.path.join(verif, v) for k, v in OVERLAY.items()}
     if ctx.replay:
-        ctx.go_test("./nodeconf", run="TestReplay$")
+        rp = json.load(open(ctx.replay)).get("replay") or {}
+        if isinstance(rp, dict) and rp.get("race"):
+            ctx.go_test("./nodeconf/", run="TestVerifNodeconfRace$", in_repo=True, tags=None, overlay=overlay)
+        else:
+            ctx.go_test("./nodeconf", run="TestReplay$")
         return
     # 1. the contract implies the property: all configurations, all viewpoints
     if not os.environ.get("VERIF_DEV_SKIP_MC"):   # development aid only (mutant runs)
         # (static instance: the life-cycle actions are disabled by construction, so coverage is taken on the dynamic one)
         ctx.tlc_expect_ok("nodeconf", "NodeConfMC", "NodeConf_mc_t.cfg" if thorough else "NodeConf_mc.cfg",
                           timeout=3000, workers=min(8, ctx.cores))
+        # (coverage is taken on the race instance, which takes every action incl. the two-step lookups)
         ctx.tlc_expect_ok("nodeconf", "NodeConfMC", "NodeConf_dyn.cfg" if thorough else "NodeConf_dyn_q.cfg",
-                          coverage=True, timeout=3000, workers=min(8, ctx.cores))
+                          timeout=3000, workers=min(8, ctx.cores))
+        if thorough:   # lookups in two steps (read lock held) interleaved with the life cycle
+            ctx.tlc_expect_ok("nodeconf", "NodeConfMC", "NodeConf_race.cfg", coverage=True, timeout=3000, workers=min(8, ctx.cores))
     # 2. spec -> code: every enumerated configuration is built from real services
     emit = os.path.join(ctx.scratch, "emit")
     os.makedirs(emit)
@@ -174,6 +187,12 @@ def run(ctx):
     rep2 = ctx.go_test("./nodeconf", run="TestDynamic$", timeout=1200,
                        env={"VERIF_TRACE_OUT": t2, "VERIF_DYN": 40 if thorough else 6})
     ev2 = rep2["extra"].get("trace_events", 0)
+    # lookups concurrent with a configuration update (in-package: the active NodeConf is wrapped by a gate)
+    t3 = os.path.join(ctx.scratch, "nodeconf-race.ndjson")
+    rep3 = ctx.go_test("./nodeconf/", run="TestVerifNodeconfRace$", in_repo=True, tags=None, overlay=overlay, timeout=1800,
+                       env={"VERIF_TRACE_OUT": t3, "VERIF_RACE_SCENARIOS": 96 if thorough else 24},
+                       name="lookups concurrent with an update (in-package)")
+    ev3 = rep3["extra"].get("trace_events", 0)
     ctx.go_test("./nodeconf", run="TestBulk$", timeout=2400,
                 env={"VERIF_BULK_IDS": 30000 if thorough else 2500, "VERIF_BULK_CONFS": 4 if thorough else 2})
     # 3. code -> spec: recorded answers validated (static epochs and dynamic scenarios in one file)
@@ -181,8 +200,13 @@ def run(ctx):
     with open(trace, "w") as fh:
         fh.write(open(t1).read())
         fh.write(open(t2).read())
+        fh.write(open(t3).read())
     tv = validate_trace(ctx, trace, "trace-validation", 3000)
-    ctx.cov["trace_events_validated"] = ev1 + ev2
+    ctx.cov["trace_events_validated"] = ev1 + ev2 + ev3
+    if "TRACE-DRIFT-UPDATE-DURING-LOOKUP" in tv.out:
+        n = tv.out.count("TRACE-DRIFT-UPDATE-DURING-LOOKUP")
+        ctx.cov["drift"] += n
+        ctx.notes.append("drift: %d updates were applied while a lookup was in flight (the model's lock forbids it)" % n)
     report_trace(ctx, tv, trace)
     if thorough and tv.ok:
         self_test(ctx, trace)
